@@ -16,6 +16,7 @@ sys.setrecursionlimit(20000)
 UNDEF = ("undef",)
 _NONNEG = set()   # values known non-negative from the kernel's own assumptions (reset per function)
 _RANGES = {}      # signed value ranges of parameters from the kernel's own entry assumptions (reset per function)
+_DOMAINS = {}     # the same knowledge as interval sets of bit patterns (vlib.iset.ISet), per parameter
 
 
 class Unsupported(Exception):
@@ -440,9 +441,51 @@ def _size(e, memo=None):
     return 1 + sum(_size(k) for k in e if isinstance(k, tuple))
 
 
+def _args_in(e, out, depth=0):
+    if not isinstance(e, tuple) or depth > 40:
+        return
+    if e[0] == "arg":
+        out.add(e)
+        return
+    for k in e[1:]:
+        if isinstance(k, tuple):
+            _args_in(k, out, depth + 1)
+
+
+def _domain_decides(c):
+    """a condition over a single parameter whose admissible values are known from the kernel's own assumptions:
+    decided when the parameter's whole domain lies inside (or outside) the condition's truth set"""
+    if not _DOMAINS:
+        return None
+    vs = set()
+    _args_in(c, vs)
+    if len(vs) != 1:
+        return None
+    v = next(iter(vs))
+    if v not in _DOMAINS:
+        return None
+    from . import iset as _iset
+    try:
+        T = _iset.truth(c, v)
+    except Exception:
+        return None
+    if T is None:
+        return None
+    D = _DOMAINS[v]
+    if not (D - T):
+        return True
+    if not (D & T):
+        return False
+    return None
+
+
 def mk_ite0(c, x, y, _ctx=True):
     if x == y:
         return x
+    if _ctx and c[0] in ("icmp", "icmpx", "op") and _DOMAINS:
+        d_ = _domain_decides(c)
+        if d_ is not None:
+            return x if d_ else y
     if x == UNDEF:
         return y
     if y == UNDEF:
@@ -861,8 +904,9 @@ def gated(mod, fn, max_paths=4000):
 
     _NONNEG.clear()
     _RANGES.clear()
+    _DOMAINS.clear()
     first = run(fn.order[0], None, args, 0)
-    if not _NONNEG and not _RANGES:
+    if not _NONNEG and not _RANGES and not _DOMAINS:
         return first
     budget[0] = max_paths
     return run(fn.order[0], None, args, 0)   # second pass: the harvested sign knowledge is applied everywhere
@@ -870,6 +914,29 @@ def gated(mod, fn, max_paths=4000):
 
 def _harvest(c):
     """entry-block assumptions of the form x > -1 / x >= 0 / x <u 2^(N-1): x is non-negative"""
+    vs = set()
+    _args_in(c, vs)
+    if len(vs) == 1:
+        v = next(iter(vs))
+        b = _bits(v[2])
+        if b:
+            from . import iset as _iset
+            try:
+                T = _iset._truth(c, v)
+            except Exception:
+                T = None
+            if T is not None:
+                D = _DOMAINS.get(v, _iset.ISet.full(b)) & T
+                _DOMAINS[v] = D
+                runs = sorted(D.signed_intervals())
+                merged = []
+                for a_, b_ in runs:
+                    if merged and a_ == merged[-1][1] + 1:
+                        merged[-1] = (merged[-1][0], b_)
+                    else:
+                        merged.append((a_, b_))
+                if len(merged) == 1:
+                    _RANGES[v] = merged[0]
     if c[0] == "icmp" and is_c(c[4]) and c[3][0] == "arg":
         b_ = c[4][1]
         lo_, hi_ = _RANGES.get(c[3], (-(1 << (b_ - 1)), (1 << (b_ - 1)) - 1))
